@@ -74,6 +74,13 @@ def _scenario(draw, tier):
             ops.append(["return_chains"])
         elif timed:
             ops.append(["run_for", draw(st.sampled_from([0.0, 0.01, 0.05, 0.2, 1.0])), draw(st.sampled_from([1, 2, 5]))])
+    if not timed and kind in ("gibbs", "metropolis") and n <= 4 and d <= 2 and draw(st.integers(0, 7)) == 0:
+        # one command far beyond the usual sizes (hundreds of steps inside a single worker command)
+        if draw(st.booleans()):
+            big = ["take_steps", draw(st.sampled_from([501, 640, 1000, 1203]))]
+        else:
+            big = ["advance", draw(st.sampled_from([1100, 1501])), draw(st.sampled_from([550, 700, 750]))]
+        ops.insert(draw(st.integers(0, len(ops))), big)
     scheds = []
     for _ in range(draw(st.integers(1, 2))):
         scheds.append(dict(
@@ -276,7 +283,7 @@ def run_pt(sc, sched, canonical=False, want_trace=False):
     stats = collections.Counter()
     c = rctx.new_run(sc["seed"])
     seams.seed_global_streams(sc["seed"])
-    cfg = dict(canonical=canonical, max_yields=600_000)
+    cfg = dict(canonical=canonical, max_yields=3_000_000 if sc.get("eval_cost", 0) < 100 else 60_000_000)
     if not canonical:
         cfg.update(stall_p=sched["stall_p"], long_lat_p=sched["long_lat_p"], pipe_cap=sched["pipe_cap"],
                    speed_spread=sched["speed_spread"])
